@@ -99,6 +99,8 @@ pub struct Oracle {
     cancel_pending: bool,
     /// the sending user's cancel request was accepted by an active transaction
     user_cancelled: bool,
+    /// receiver: progress figure at the most recent NAK round (a NAK PDU was emitted)
+    pr_at_last_nak: Option<u64>,
     fin_pdu_seen: bool,
     owed: Vec<(u64, u64)>,
     owed_md: bool,
@@ -141,6 +143,7 @@ impl Oracle {
             reqs_done: false,
             cancel_pending: false,
             user_cancelled: false,
+            pr_at_last_nak: None,
             fin_pdu_seen: false,
             owed: Vec::new(),
             owed_md: false,
@@ -237,6 +240,20 @@ impl Oracle {
                         self.fail(orc, "C17", k, format!("inactivity fault {} ms after the last PDU from the peer; {} expirations of {} s are required", now - self.last_activity_ms, self.cfg.maxc, self.cfg.ti));
                     }
                 }
+            }
+        }
+        // ---- C17: progress resets the NAK count - a NAK-limit fault can only be declared when nothing new has been
+        // received since the previous NAK round (seeded change C17f tested the limit before looking at the progress)
+        if self.is_recv {
+            for i in &o.inds {
+                if let Indication::Fault(f) = i {
+                    if f.condition == Condition::NakLimitReached && o.pr != self.pr_at_last_nak.unwrap_or(0) {
+                        self.fail(orc, "C17", k, format!("NAK limit fault although the receiver made progress since its previous NAK round ({} -> {} bytes)", self.pr_at_last_nak.unwrap_or(0), o.pr));
+                    }
+                }
+            }
+            if o.pdus.iter().any(|(_, p)| matches!(&p.payload, PDUPayload::Directive(Operations::Nak(_)))) {
+                self.pr_at_last_nak = Some(o.pr);
             }
         }
         // ---- C19 / C17: timers count only un-suspended time - after a resume every timer starts a fresh
